@@ -176,7 +176,7 @@ ssize_t __wrap_write(int fd, const void *buf, size_t n) {
             if(w <= 0) break;
             off += w;
         }
-        _exit(77);
+        VF_EXIT(77);
     }
     size_t req = n;
     char dv = 0;
@@ -215,7 +215,7 @@ static int do_ftruncate(int fd, off_t l) {
         errno = (int)d->arg;
         return -1;
     }
-    if(d && d->kind == DEV_KILL) _exit(77);
+    if(d && d->kind == DEV_KILL) VF_EXIT(77);
     if(d) env_plan_mismatch = 1;
     int r = __real_ftruncate64(fd, l);
     tr(k, 't', role_of(fd), l, r, r < 0 ? errno : 0, 0);
